@@ -232,6 +232,8 @@ def check(cx):
         if not ok or s['payload'] != MSG or s['source'] != CONN_SOURCE:
             r4.violation('process_topic|announcement-shape', 'TOPIC announcement is not (original message, actor source) for exactly '
                          'the accepted changes', loc=cx.loc(e.node))
+    r4.instance('TOPIC / INVITE are relayed through the serialiser that keeps the last parameter intact (C13 R13.7)')
+    depends(cx, r4, 'C13', ('R13.7',), 'a relayed last parameter (topic text) is re-parsed as sent')
     treps = replies(wt)
     tsome = is_some(field(CH, 'topic'))
     reply_cond(cx, r4, treps, 'RplTopic332', And(Not(given), exists, member, tsome), ft, 'process_topic')
